@@ -49,7 +49,15 @@ TraceOp ==
 
 TraceConc ==
   /\ IsEv("conc")
-  /\ Rec(Cl(Trace[l].mismatches = 0, "C12.out_equals_sequential"), {}, {})
+  /\ Rec(Cl(Trace[l].mismatches = 0, "C12.out_equals_sequential")
+         \cup Cl(Trace[l].panics = 0, "C12.no_panic_under_concurrency"), {}, {})
+  /\ UNCHANGED <<cid, k, ncases>>
+
+(* the driver process died with a Go runtime crash while packaging concurrently and the same rounds, run one goroutine *)
+(* after the other in a fresh process, completed: the crash is an effect of the concurrency                            *)
+TraceConcCrash ==
+  /\ IsEv("conc_crash")
+  /\ Rec(Cl(~(Trace[l].sequential_ok = "yes"), "C12.no_crash_under_concurrency"), {}, {})
   /\ UNCHANGED <<cid, k, ncases>>
 
 TraceRaces ==
@@ -63,7 +71,7 @@ TraceEof ==
   /\ PrintT(<<"NCASES", ncases>>) /\ TLCSet(1, l)
   /\ UNCHANGED <<cid, k, viol, drift, merr, ncases>>
 
-TraceNext == TraceCase \/ TraceEnd \/ TraceParse \/ TraceOp \/ TraceConc \/ TraceRaces \/ TraceEof
+TraceNext == TraceCase \/ TraceEnd \/ TraceParse \/ TraceOp \/ TraceConc \/ TraceConcCrash \/ TraceRaces \/ TraceEof
 TraceSpec == TraceInit /\ [][TraceNext]_vars
 HighWater == TLCSet(2, l)
 Accepted == TLCGet(1) = Len(Trace)
